@@ -92,6 +92,98 @@ def random_cases(ctx, count):
     return out
 
 
+# ----------------------------------------------------------------------------------------------
+# larger problems (p >= 6): the truncated LOBPCG path (k <= p/5), the band p/5 < k <= p/3 and k > p/3
+
+def posdef_shift(m, n):
+    """exact: all eigenvalues of M exceed n/4 (sigma_min^2 > 1/4) <=> every leading principal minor of 4M - nI is
+    positive (Sylvester); the minors are the pivots of fraction-free (Bareiss) elimination"""
+    p = len(m)
+    a = [[4 * m[i][j] - (n if i == j else 0) for j in range(p)] for i in range(p)]
+    prev = 1
+    for k in range(p):
+        if a[k][k] <= 0:
+            return False
+        for i in range(k + 1, p):
+            for j in range(k + 1, p):
+                a[i][j] = (a[i][j] * a[k][k] - a[i][k] * a[k][j]) // prev
+        prev = a[k][k]
+    return True
+
+
+def in_domain_big(x):
+    n, p = len(x), len(x[0])
+    mx = max(abs(v) for r in x for v in r)
+    if not (p < n <= 400 and p <= 30 and n * n * mx * mx < 2000000000 and mx <= 130):
+        return False
+    m = scatter(x)
+    tr = sum(m[j][j] for j in range(p))
+    return 1 <= tr <= 1400000000 and tr // n <= 140000 and posdef_shift(m, n)
+
+
+def band_ks(r, p):
+    """embedding sizes at the borders of the three regimes k <= p/5 (truncated LOBPCG run), p/5 < k <= p/3
+    (LOBPCG would nearly exhaust its search space) and k > p/3, plus one random size above p/3"""
+    ks = {1, p // 5, p // 5 + 1, p // 3, p // 3 + 1, r.randint(p // 3 + 1, p - 1)}
+    return sorted(k for k in ks if 1 <= k < p)
+
+
+def big_case(r, n, p, shape, ks):
+    """integer matrix of the given shape whose magnitudes fit the specification's 31-bit budget (the amplitude of the
+    entries and the steepness of the column ramp are reduced until sum sigma^2 <= 140000)"""
+    for base, div in [(3, 1), (2, 1), (1, 1), (2, 2), (1, 2), (1, 3), (1, 4), (1, 6)]:
+        sc = [1] * p
+        off = [0] * p
+        if shape in ("ramp", "offramp"):
+            sc = [1 + j // div for j in range(p)]          # column j scaled by 1 + j (div = 1)
+        if shape in ("scaled", "offscaled"):
+            sc[r.randrange(p)] = 30 // div
+            sc[r.randrange(p)] = 10
+        if shape in ("offset", "offscaled", "offramp"):
+            off = [r.choice([0, 50, -20, 100]) for _ in range(p)]
+        x = [[off[j] + sc[j] * r.randint(-base, base) for j in range(p)] for _ in range(n)]
+        if in_domain_big(x):
+            q = [[off[j] + r.randint(-3, 3) for j in range(p)], [r.randint(-5, 5) for _ in range(p)]]
+            return {"kind": "pca", "inp": {"n": n, "p": p, "x": x, "q": q, "form": r.choice(["owned", "view", "fortran"]),
+                                           "ks": ks, "zr": 3, "shape": "%s/%d/%d" % (shape, base, div)}}
+    return None
+
+
+SHAPES = ["iso", "ramp", "scaled", "offset", "offscaled", "offramp"]
+
+
+def big_cases(ctx):
+    r = ctx.rng
+    out = []
+    if ctx.quick:
+        half = ["ramp", "offscaled", "iso"]
+        plan = [(5 * p, p, sh) for p in (6, 8, 12) for sh in half] + \
+               [(5 * p, p, sh) for p in (7, 10, 13) for sh in SHAPES] + \
+               [(80, 16, sh) for sh in half] + \
+               [(100, 20, sh) for sh in ("ramp", "scaled", "offscaled", "offramp")]
+        for (n, p, sh) in plan:
+            # p = 20: k = 2, 3 are the sizes that hit the NaN panic of the unscaled LOBPCG run
+            ks = band_ks(r, p) if p < 20 else sorted({2, 3} | set(band_ks(r, p)))
+            c = big_case(r, n, p, sh, ks)
+            if c:
+                out.append(c)
+    else:
+        for p in (6, 7, 8, 9, 10, 11, 12):
+            for sh in SHAPES:
+                for n in (5 * p, 2 * p + 3):
+                    c = big_case(r, n, p, sh, list(range(1, p + 1)))          # every k
+                    if c:
+                        out.append(c)
+        for (n, p) in ((60, 16), (100, 20), (200, 20), (150, 30), (300, 30)):
+            for sh in ("ramp", "scaled", "offscaled", "offramp", "iso"):
+                ks = list(range(1, p + 1)) if (n, p) in ((100, 20), (150, 30)) and sh in ("ramp", "offscaled") else \
+                    sorted(set(band_ks(r, p) + [2, 3, p]))
+                c = big_case(r, n, p, sh, ks)
+                if c:
+                    out.append(c)
+    return out
+
+
 def nontrivial(case):
     return case["inp"]["p"] >= 2
 
@@ -103,19 +195,31 @@ def run(ctx):
     ctx.exhaustive = False
     if not ctx.quick:
         cases += random_cases(ctx, 800)
+    big = big_cases(ctx)
+    cases += big
     vlib.number(cases)
     ctx.cases = len(cases)
     ctx.nontrivial = len({repr(c["inp"]["x"]) for c in cases if nontrivial(c)})
+    ctx.extra["large_cases"] = len(big)
+    ctx.extra["large_fits_by_regime"] = {
+        "k<=p/5": sum(1 for c in big for k in c["inp"]["ks"] if 5 * k <= c["inp"]["p"]),
+        "p/5<k<=p/3": sum(1 for c in big for k in c["inp"]["ks"] if 5 * k > c["inp"]["p"] and 3 * k <= c["inp"]["p"]),
+        "k>p/3": sum(1 for c in big for k in c["inp"]["ks"] if 3 * k > c["inp"]["p"])}
     traces = vlib.run_harness(ctx, binp, cases)
     vlib.sample(ctx, [t for t in traces if t["inp"]["p"] == 2 and t["inp"]["n"] == 3][:1]
                 + [t for t in traces if t["inp"]["p"] == 3][:1])
-    vlib.validate_with_findings(ctx, "Trace_Pca", traces, constants=TRACE_CONST, chunk=2500)
+    small = [t for t in traces if t["inp"]["p"] <= 6 and "ks" not in t["inp"]]
+    large = [t for t in traces if not (t["inp"]["p"] <= 6 and "ks" not in t["inp"])]
+    vlib.validate_with_findings(ctx, "Trace_Pca", small, constants=TRACE_CONST, chunk=2500)
+    vlib.validate_with_findings(ctx, "Trace_Pca", large, constants=TRACE_CONST, chunk=40, tag="Trace_Pca_large")
     ctx.rule = ("cases = multisets of n rows over the grids {-2..3} (p=1, n<=%d), {-1..2}^2 (p=2, n<=%d), {-1,0,1}^3 (p=3, n<=%d), "
                 "each as plain / offset / badly-scaled variant chosen by a hash, kept iff det M > 0 and sigma_min^2 >= 1/4 "
                 "(exact), larger sub-domains thinned by Hash %% Mod (p=2,n>=4: %d, p=3: %d), enumerated by TLC (Gen_Pca) "
                 "[+ 800 seeded random matrices n<=20, p<=6, isotropic / anisotropic / low-rank+noise / offset / badly scaled, "
-                "in the thorough tier]; every case runs all embedding sizes 1..p x whitening off/on x 3 record layouts, "
-                "two probe rows and 6 invalid requests; non-trivial = p >= 2 (has truncated fits); distinct by record matrix"
+                "in the thorough tier] + seeded larger matrices (quick: p in {6,7,8,10,12,13}, n=5p, p=16, n=80 and p=20, n=100, up to six shapes incl. "
+                "column ramp 1+j, offsets, badly scaled columns, embedding sizes at the borders of the regimes k<=p/5, p/5<k<=p/3, k>p/3; "
+                "thorough: p=6..12 with every k, p=16,20,30 with n up to 300); every case runs its embedding sizes x whitening "
+                "off/on x 3 record layouts, two probe rows and 6 invalid requests; non-trivial = p >= 2; distinct by record matrix"
                 % (GEN[ctx.tier]["MaxN1"], GEN[ctx.tier]["MaxN2"], GEN[ctx.tier]["MaxN3"], GEN[ctx.tier]["Mod2Big"],
                    GEN[ctx.tier]["Mod3"]))
     ctx.trusted = ["TLC + CommunityModules Json", "harness fixed-point encoding (harness/src/bin/c18.rs)",
@@ -126,6 +230,9 @@ def run(ctx):
                        "orthonormal eigen-decomposition (eigen-equation + trace identity) and serves as certificate for "
                        "the truncated fits' singular values; Rayleigh bound on lattice directions as independent necessary check",
                        "record matrices are full rank with sigma_min >= 1/2 (rank-deficient input is outside the statement's quantifier)",
+                       "magnitudes are limited by 32-bit TLC integers: sum of sigma^2 <= 140000, n <= 400, p <= 30, |x| <= 130 "
+                       "(the generator lowers the entry amplitude / the steepness of the column ramp until a matrix fits)",
+                       "for n > 20 the projection / round trip is logged for the first 3 training rows and the probes only",
                        "an explained-variance ratio is a fraction (<= 1)"]
     return vlib.finish(ctx)
 
